@@ -182,6 +182,13 @@ func (r *AofRotateReader) isCorrupted() error {
 	expCrc := binary.LittleEndian.Uint64(r.header[1:9])
 	expSize := binary.LittleEndian.Uint32(r.header[9:13])
 
+	if expCrc == 0 && expSize == 0 {
+		// the header is filled when a segment is closed : after an unclean stop the newest
+		// segment was never sealed, there is no recorded size or checksum to verify it against
+		_, err = r.file.Seek(headerSize, 0)
+		return err
+	}
+
 	fi, err := os.Stat(r.filepath)
 	if err != nil {
 		return err
